@@ -8,7 +8,7 @@ import propbase
 ID = "C08"
 MODULE = "HttpcoreModel.Props.C08"
 THEOREMS = [f"Httpcore.C08.{n}" for n in ("pool_mutations_locked", "limit_under_threads", "exclusive_use_all_interleavings",
-                                           "pass_assigns_and_evicts_same_connection")]
+                                           "pass_assigns_and_evicts_same_connection", "close_marks_closed_first")]
 TRUSTED = [
     "Lean 4.33 kernel; axioms per theorem under coverage.theorems",
     "the pass model with an adversarial status oracle (Pool.passAdv, C04) and the transition system Sys, whose runs are all interleavings of "
